@@ -88,7 +88,9 @@ impl<'a> Cursor<'a> {
     /// the last character consumed (debug builds)
     pub uninterp spec fn prevc(&self) -> char;
 }
-/// `post` is `pre` after consuming n >= 0 characters
+/// `post` is `pre` after consuming n >= 0 characters (opaque: used through the lemmas below, so
+/// that large functions do not drown in sequence axioms)
+#[verifier::opaque]
 pub open spec fn advanced(pre: Cursor, post: Cursor) -> bool {
     let n = pre.rest().len() - post.rest().len();
     &&& n >= 0
@@ -106,6 +108,7 @@ pub open spec fn peek(c: Cursor) -> char { if c.rest().len() > 0 { c.rest()[0] }
 pub broadcast proof fn lemma_advanced_refl(a: Cursor)
     ensures #[trigger] advanced(a, a)
 {
+    reveal(advanced);
     assert(a.rest().skip(0) =~= a.rest());
     assert(a.tok() + a.rest().take(0) =~= a.tok());
 }
@@ -113,6 +116,7 @@ pub broadcast proof fn lemma_advanced_trans(a: Cursor, b: Cursor, c: Cursor)
     requires #[trigger] advanced(a, b), #[trigger] advanced(b, c),
     ensures advanced(a, c)
 {
+    reveal(advanced);
     let n = a.rest().len() - b.rest().len();
     let m = b.rest().len() - c.rest().len();
     assert(a.rest().skip(n).skip(m) =~= a.rest().skip(n + m));
@@ -125,6 +129,7 @@ pub broadcast proof fn lemma_advanced_total(a: Cursor, b: Cursor)
         utf8_len(b.tok()) == utf8_len(a.tok()) + utf8_len(a.rest().take(eaten(a, b))),
         eaten(a, b) <= utf8_len(a.rest().take(eaten(a, b))),
 {
+    reveal(advanced);
     let n = a.rest().len() - b.rest().len();
     lemma_utf8_len_add(a.tok(), a.rest().take(n));
     assert(a.rest().take(n) + a.rest().skip(n) =~= a.rest());
@@ -137,8 +142,141 @@ pub proof fn lemma_bump_advanced(a: Cursor, b: Cursor)
     requires a.rest().len() > 0, b.rest() == a.rest().skip(1), b.tok() == a.tok().push(a.rest()[0]), b.prevc() == a.rest()[0],
     ensures advanced(a, b), eaten(a, b) == 1
 {
+    reveal(advanced);
     assert(a.tok().push(a.rest()[0]) =~= a.tok() + a.rest().take(1));
 }
-pub broadcast group lex_lemmas {
+pub broadcast proof fn lemma_skip_skip(s: Seq<char>, a: int, b: int)
+    requires 0 <= a, 0 <= b, a + b <= s.len(),
+    ensures #[trigger] s.skip(a).skip(b) == s.skip(a + b)
+{ assert(s.skip(a).skip(b) =~= s.skip(a + b)); }
+/// what an advance means for the remaining input and the last consumed character
+pub broadcast proof fn lemma_advanced_rest(a: Cursor, b: Cursor)
+    requires #[trigger] advanced(a, b),
+    ensures eaten(a, b) >= 0, b.rest() == a.rest().skip(eaten(a, b)), b.tok() == a.tok() + a.rest().take(eaten(a, b)),
+        eaten(a, b) == 0 ==> b.prevc() == a.prevc(), eaten(a, b) > 0 ==> b.prevc() == a.rest()[eaten(a, b) - 1],
+{ reveal(advanced); }
+/// explicit composition step (used where broadcasting the lemmas above would be too expensive)
+pub proof fn lemma_step(a: Cursor, b: Cursor, c: Cursor)
+    requires advanced(a, b), advanced(b, c),
+    ensures advanced(a, c), eaten(a, c) == eaten(a, b) + eaten(b, c), eaten(a, c) >= 0,
+        c.rest() == a.rest().skip(eaten(a, c)), peek(c) == ch(a.rest(), eaten(a, c)),
+        b.rest() == a.rest().skip(eaten(a, b)), total(c) == total(a), fits(a) ==> fits(c),
+        eaten(b, c) > 0 ==> c.prevc() == b.rest()[eaten(b, c) - 1], eaten(b, c) == 0 ==> c.prevc() == b.prevc(),
+{
+    lemma_advanced_trans(a, b, c);
+    lemma_advanced_total(a, c);
+    lemma_advanced_rest(a, c);
+    lemma_advanced_rest(a, b);
+    lemma_advanced_rest(b, c);
+}
+pub broadcast group lex_lemmas { lemma_advanced_rest,
     axiom_xid_start_ascii, axiom_xid_continue_ascii, lemma_advanced_refl, lemma_advanced_trans, lemma_advanced_total,
+}
+
+// ---- stage B: exact extents and flags of numeric literals (C15 maximal munch, C11 flags) --------
+pub open spec fn is_dec(c: char) -> bool { '0' <= c && c <= '9' }
+pub open spec fn is_hex(c: char) -> bool { is_dec(c) || ('a' <= c && c <= 'f') || ('A' <= c && c <= 'F') }
+pub open spec fn dec_us(c: char) -> bool { c == '_' || is_dec(c) }
+pub open spec fn hex_us(c: char) -> bool { c == '_' || is_hex(c) }
+/// length of the maximal run of decimal digits / underscores at the start of `s`
+pub open spec fn run_dec(s: Seq<char>) -> nat
+    decreases s.len()
+{ if s.len() > 0 && dec_us(s[0]) { 1 + run_dec(s.skip(1)) } else { 0 } }
+pub open spec fn run_hex(s: Seq<char>) -> nat
+    decreases s.len()
+{ if s.len() > 0 && hex_us(s[0]) { 1 + run_hex(s.skip(1)) } else { 0 } }
+pub open spec fn has_dec(s: Seq<char>) -> bool { exists|i: int| 0 <= i < s.len() && is_dec(#[trigger] s[i]) }
+pub open spec fn has_hex(s: Seq<char>) -> bool { exists|i: int| 0 <= i < s.len() && is_hex(#[trigger] s[i]) }
+pub proof fn lemma_run_dec_le(s: Seq<char>) ensures run_dec(s) <= s.len() decreases s.len() { if s.len() > 0 && dec_us(s[0]) { lemma_run_dec_le(s.skip(1)); } }
+pub proof fn lemma_run_hex_le(s: Seq<char>) ensures run_hex(s) <= s.len() decreases s.len() { if s.len() > 0 && hex_us(s[0]) { lemma_run_hex_le(s.skip(1)); } }
+/// one more step of a run: if the k-th char continues the run
+pub proof fn lemma_run_dec_split(s: Seq<char>, k: nat)
+    requires k <= run_dec(s),
+    ensures k <= s.len(), run_dec(s) == k + run_dec(s.skip(k as int)), forall|i: int| 0 <= i < k ==> dec_us(#[trigger] s[i]),
+    decreases k
+{
+    lemma_run_dec_le(s);
+    if k > 0 {
+        lemma_run_dec_split(s.skip(1), (k - 1) as nat);
+        assert(s.skip(1).skip(k - 1) =~= s.skip(k as int));
+        assert forall|i: int| 0 <= i < k implies dec_us(#[trigger] s[i]) by { if i > 0 { assert(s[i] == s.skip(1)[i - 1]); } }
+    } else { assert(s.skip(0) =~= s); }
+}
+pub proof fn lemma_run_hex_split(s: Seq<char>, k: nat)
+    requires k <= run_hex(s),
+    ensures k <= s.len(), run_hex(s) == k + run_hex(s.skip(k as int)), forall|i: int| 0 <= i < k ==> hex_us(#[trigger] s[i]),
+    decreases k
+{
+    lemma_run_hex_le(s);
+    if k > 0 {
+        lemma_run_hex_split(s.skip(1), (k - 1) as nat);
+        assert(s.skip(1).skip(k - 1) =~= s.skip(k as int));
+        assert forall|i: int| 0 <= i < k implies hex_us(#[trigger] s[i]) by { if i > 0 { assert(s[i] == s.skip(1)[i - 1]); } }
+    } else { assert(s.skip(0) =~= s); }
+}
+pub proof fn lemma_has_dec_push(s: Seq<char>, c: char) ensures has_dec(s.push(c)) == (has_dec(s) || is_dec(c))
+{
+    let t = s.push(c);
+    if has_dec(s) { let i = choose|i: int| 0 <= i < s.len() && is_dec(#[trigger] s[i]); assert(is_dec(t[i])); }
+    if is_dec(c) { assert(is_dec(t[s.len() as int])); }
+    if has_dec(t) { let i = choose|i: int| 0 <= i < t.len() && is_dec(#[trigger] t[i]); if i < s.len() { assert(is_dec(s[i])); } }
+}
+pub proof fn lemma_has_hex_push(s: Seq<char>, c: char) ensures has_hex(s.push(c)) == (has_hex(s) || is_hex(c))
+{
+    let t = s.push(c);
+    if has_hex(s) { let i = choose|i: int| 0 <= i < s.len() && is_hex(#[trigger] s[i]); assert(is_hex(t[i])); }
+    if is_hex(c) { assert(is_hex(t[s.len() as int])); }
+    if has_hex(t) { let i = choose|i: int| 0 <= i < t.len() && is_hex(#[trigger] t[i]); if i < s.len() { assert(is_hex(s[i])); } }
+}
+/// what `eat_float_exponent` must do on `s` (the text after the exponent marker): optional sign,
+/// then a maximal run of digits/underscores; (chars consumed, at least one digit)
+pub open spec fn exponent_spec(s: Seq<char>) -> (nat, bool) {
+    let sg: nat = if s.len() > 0 && (s[0] == '-' || s[0] == '+') { 1 } else { 0 };
+    let d = s.skip(sg as int);
+    (sg + run_dec(d), has_dec(d.take(run_dec(d) as int)))
+}
+pub open spec fn ch(s: Seq<char>, i: int) -> char { if 0 <= i < s.len() { s[i] } else { '\0' } }
+/// the part of a numeric literal after its integer digits, starting at offset `pos` of `s`:
+/// `. digits? (e|E [+-]? digits)?`  |  `(e|E) [+-]? digits`  |  nothing   (OpenQASM 3 float syntax)
+#[verifier::opaque]
+pub open spec fn frac_exp_spec(base: Base, s: Seq<char>, pos: int) -> (LiteralKind, int) {
+    let c = ch(s, pos);
+    if c == '.' {
+        if is_dec(ch(s, pos + 1)) {
+            let p2 = pos + 1 + run_dec(s.skip(pos + 1));
+            if ch(s, p2) == 'e' || ch(s, p2) == 'E' {
+                let ex = exponent_spec(s.skip(p2 + 1));
+                (LiteralKind::Float { base, empty_exponent: !ex.1 }, p2 + 1 + ex.0)
+            } else { (LiteralKind::Float { base, empty_exponent: false }, p2) }
+        } else { (LiteralKind::Float { base, empty_exponent: false }, pos + 1) }
+    } else if c == 'e' || c == 'E' {
+        let ex = exponent_spec(s.skip(pos + 1));
+        (LiteralKind::Float { base, empty_exponent: !ex.1 }, pos + 1 + ex.0)
+    } else { (LiteralKind::Int { base, empty_int: false }, pos) }
+}
+/// a numeric literal whose first digit `first` has been consumed and whose remaining text is `s`:
+/// (literal class with its malformedness flag, number of further characters it extends over)
+#[verifier::opaque]
+pub open spec fn num_spec(first: char, s: Seq<char>) -> (LiteralKind, int) {
+    if first == '0' {
+        let c = ch(s, 0);
+        if c == 'b' || c == 'o' {
+            let base = if c == 'b' { Base::Binary } else { Base::Octal };
+            let d = run_dec(s.skip(1)) as int;
+            if !has_dec(s.skip(1).take(d)) { (LiteralKind::Int { base, empty_int: true }, 1 + d) } else { frac_exp_spec(base, s, 1 + d) }
+        } else if c == 'x' {
+            let d = run_hex(s.skip(1)) as int;
+            if !has_hex(s.skip(1).take(d)) { (LiteralKind::Int { base: Base::Hexadecimal, empty_int: true }, 1 + d) } else { frac_exp_spec(Base::Hexadecimal, s, 1 + d) }
+        } else if dec_us(c) { frac_exp_spec(Base::Decimal, s, run_dec(s) as int) }
+        else if c == '.' || c == 'e' || c == 'E' { frac_exp_spec(Base::Decimal, s, 0) }
+        else { (LiteralKind::Int { base: Base::Decimal, empty_int: false }, 0) }
+    } else { frac_exp_spec(Base::Decimal, s, run_dec(s) as int) }
+}
+/// `.5e3`: digits then an optional exponent
+pub open spec fn dot_float_spec(s: Seq<char>) -> (LiteralKind, int) {
+    let f = run_dec(s) as int;
+    if ch(s, f) == 'e' || ch(s, f) == 'E' {
+        let ex = exponent_spec(s.skip(f + 1));
+        (LiteralKind::Float { base: Base::Decimal, empty_exponent: !ex.1 }, f + 1 + ex.0)
+    } else { (LiteralKind::Float { base: Base::Decimal, empty_exponent: false }, f) }
 }
